@@ -186,7 +186,7 @@ def atPrelude (data : List Char) (vals : List Tok) : List Tok :=
   match vals with
   | [w, u] =>
     if data == "@import".toList && u.tt == .url && 4 < u.data.length && u.data.getLast? == some ')' then
-      [w, .mk .url (importURL u.data) []]
+      [w, .mk .string (importURL u.data) []]
     else vals
   | _ => vals
 
